@@ -99,6 +99,29 @@ def programs() -> dict[str, dict]:
             "vn": {"a": ("a_hyp", 2), "a_value": ("a", 1)},
         },
     }
+    # an optional input: a NON-transient node whose value is None in one state and a number
+    # in another (the Calc branches on `is None`)
+    out["optnone"] = {
+        "kind": "gb", "user": {},
+        "items": [
+            S("mu", G.MU, N(C(0.0), C(4.0)), flag="par"),
+            S("sigma", G.SIG, G.scale_prior("Gamma"), flag="par"),
+            {"k": "opt", "name": "off", "lattice": [None, 1.5]},
+            W("eta", "add_opt", [R("mu"), R("off")]),
+            S("y", G.Y3, N(R("eta"), R("sigma")), flag="obs"),
+        ],
+        "pos": ["mu", "sigma"],
+    }
+    # a variable transformed with a bijector CLASS whose argument is a model quantity
+    out["transfvar"] = {
+        "kind": "gb", "user": {},
+        "items": [
+            S("s", [2.0, 0.5, 4.0], G.scale_prior("Gamma"), flag="par"),
+            S("x", [0.25, -0.75, 1.25], N(C(0.5), C(2.0)), flag="par", transform={"how": "scale_cls", "scale": R("s"), "fam": "Normal"}, init=1.0),
+            S("y", G.Y3, N(R("x"), C(1.5)), flag="obs"),
+        ],
+        "pos": ["s", "x_transformed"],
+    }
     dr = [p for p in G.distreg_programs("quick") if p["label"] == "DR/Normal/np_def/0"][0]
     out["distreg"] = {**dr, "pos": ["loc_np0_beta", "loc_np0_tau2"]}
     ulp = [p for p in G.family_B("quick") if p["label"] == "B5/prob/dists/TTT"][0]
@@ -262,8 +285,8 @@ class Lab:
         for a in self.sib.assignable:
             self.sib.assign(a["target"], a["lattice"][-1], a["via"])
         self.sib.model.update()
-        self.val_orig = {k: np.asarray(v) for k, v in self.user.current_valuation().items()}
-        self.val_sib = {k: np.asarray(v) for k, v in self.sib.current_valuation().items()}
+        self.val_orig = {k: (None if v is None else np.asarray(v)) for k, v in self.user.current_valuation().items()}
+        self.val_sib = {k: (None if v is None else np.asarray(v)) for k, v in self.sib.current_valuation().items()}
         self.orig_state = self.user.model.state
         self.sib_state = self.sib.model.state
         self.user_snap = self._model_snapshot(self.user.model)
@@ -331,7 +354,7 @@ class Lab:
 
     # -- oracle model -------------------------------------------------------------
     def expected(self, valuation):
-        key = tuple((k, np.asarray(v).tobytes()) for k, v in sorted(valuation.items()))
+        key = tuple((k, b"None" if v is None else np.asarray(v).tobytes()) for k, v in sorted(valuation.items()))
         if key not in self.expected_cache:
             o = self.oracle
             o.model.auto_update = False
@@ -428,6 +451,8 @@ class Lab:
         jitted = None
         jit_sigs: set = set()
         prev, prev_val, pure, prev_mode = None, None, True, None
+        earlier: list = []  # (index, returned state, digest at return time)
+        fixed_digests = {"orig": state_digest(self.orig_state), "sib": state_digest(self.sib_state)}
         for k, (pid, sid, mode) in enumerate(hist):
             last = k == len(hist) - 1
             if sid == "orig":
@@ -463,20 +488,41 @@ class Lab:
                     p1, u1 = self.position(pid, 1)
                     p2, u2 = self.position(pid, 2)
                     bpos = {kk: self.jnp.stack([pos[kk], p1[kk], p2[kk]]) for kk in pos}
-                    bstate = self.stack_states([s, self.orig_state, self.sib_state])
+                    comp = [(self.orig_state, self.val_orig), (self.sib_state, self.val_sib)]
+                    none_sig = lambda st: tuple(n for n in sorted(st) if st[n].value is None)  # noqa: E731
+                    comp = [(st, vl) if none_sig(st) == none_sig(s) else (s, sval) for st, vl in comp]
+                    bstate = self.stack_states([s, comp[0][0], comp[1][0]])
                     bout = _guard(jax.vmap(itf.update_state, in_axes=(0, 0)), bpos, bstate)
                     outs = [self.unstack(bout, i) for i in range(3)]
-                    exps = [new_val, {**self.val_orig, **u1}, {**self.val_sib, **u2}]
+                    exps = [new_val, {**comp[0][1], **u1}, {**comp[1][1], **u2}]
                     poss = [pos, p1, p2]
                     out = outs[0]
             except LieselRaised as e:
                 self.fail("raises", f"update_state@{self.tag}/{mode}", {"history": hist}, f"update_state raised {e} in history {hist}")
                 return None
             step_pure = s_pure and mode == "eager"
+            # results returned earlier (and the two fixed states) must not change any more
+            damaged = None
+            for j, st, dg in earlier:
+                if st is not out and state_digest(st) != dg:
+                    damaged = f"the state returned by call #{j} ({hist[j]}) was modified by call #{k} ({hist[k]})"
+                    break
+                if st is out and sid != "prev":
+                    damaged = f"call #{k} ({hist[k]}) returned the same dict object as call #{j}"
+                    break
+            if damaged is None and (state_digest(self.orig_state) != fixed_digests["orig"] or state_digest(self.sib_state) != fixed_digests["sib"]):
+                damaged = f"a model state that was not even an argument was modified by call #{k} ({hist[k]})"
+            if damaged is None and out is s:
+                damaged = f"call #{k} ({hist[k]}) returned its input dict object"
+            if damaged is not None:
+                if last and check_last:
+                    self.fail("purity", f"result-aliasing@{self.tag}/{mode}", {"history": hist}, f"{damaged} (returned states share storage)")
+                return None
             if last and check_last:
                 self.check_call(itf, hist, pid, sid, mode, s, snap_s, pos, pos_ids, outs, exps, poss, step_pure)
             if any(_is_tracer(ns.value) or _is_tracer(ns.outdated) for ns in out.values()):
                 return None  # reported by check_call when this call was the last one; nothing can follow
+            earlier.append((k, out, state_digest(out)))
             prev, prev_val, pure, prev_mode = out, new_val, step_pure, mode
         canon = (private_digest(itf._model), None if prev is None else state_digest(prev), tuple(sorted(jit_sigs)))
         return {"canon": canon, "hist": list(hist)}
@@ -513,7 +559,7 @@ class Lab:
                 if not ok:
                     self.fail("result", f"value:{name}@{where}", case,
                               f"node {name} = {ga} but a fresh model with the values assigned directly and fully updated has {wa} (position {case['position']}, state {sid}, history {hist})")
-                if bi == 0 and s[name].value is not None and not np.array_equal(np.asarray(s[name].value, dtype=np.float64), ga):
+                if bi == 0 and s[name].value is not None and not _is_tracer(s[name].value) and not np.array_equal(np.asarray(s[name].value, dtype=np.float64), ga):
                     changed.add(name)
             # (4) extract_position round trip
             keys = list(p)
@@ -784,8 +830,50 @@ def simple_interfaces(res, unit):
                 fail("simple", "unknown-key@dc", {}, "DataclassInterface accepted a key that is not a field")
             except RuntimeError:
                 pass
+    # a state dataclass with a NESTED dataclass field (and a list of them): the fields are
+    # opaque values for the interface - put/get must hand back the very objects
+    @dataclasses.dataclass
+    class Inner:
+        a: float
+        b: tuple
+
+    @dataclasses.dataclass
+    class DCN:
+        x: object
+        inner: object
+        many: object
+
+    itf = gs.DataclassInterface(lambda s: jnp.sum(s.x))
+    inner_vals = [Inner(1.0, (2.0, 3.0)), Inner(-4.0, (0.5,))]
+    many_vals = [[Inner(0.0, ())], [Inner(1.5, (1.0,)), Inner(2.5, ())]]
+    x_vals = [jnp.asarray([0.25, -1.5], dtype=jnp.float32), jnp.asarray([2.0, 0.5], dtype=jnp.float32)]
+    nfields = ("x", "inner", "many")
+    menu = {"x": x_vals, "inner": inner_vals, "many": many_vals}
+    for sub in [c for r in range(0, 4) for c in itertools.combinations(nfields, r)]:
+        for i in (0, 1):
+            s0 = DCN(x_vals[1 - i], inner_vals[1 - i], many_vals[1 - i])
+            before = {f: getattr(s0, f) for f in nfields}
+            p = {f: menu[f][i] for f in sub}
+            case = {"interface": "dcn", "keys": list(sub), "i": i}
+            try:
+                new = _guard(itf.update_state, p, s0)
+                got_new = _guard(itf.extract_position, list(nfields), new)
+                got_old = _guard(itf.extract_position, list(nfields), s0)
+            except LieselRaised as e:
+                fail("simple", "raises@dcn", case, f"nested-dataclass state: {e}")
+                continue
+            res.transitions += 1
+            res.executions += 1
+            for f in nfields:
+                want = p[f] if f in sub else before[f]
+                if got_new[f] is not want:
+                    fail("simple", f"{'put-get' if f in sub else 'frame'}:{f}@dcn", case,
+                         f"extract_position gives {f} = {got_new[f]!r} ({type(got_new[f]).__name__}) but the state holds {want!r}")
+                if got_old[f] is not before[f] or getattr(s0, f) is not before[f]:
+                    fail("simple", f"input:{f}@dcn", case, f"field {f} of the input state: {got_old[f]!r} instead of the object {before[f]!r}")
+            res.outcome("simple", "dcn", len(sub), i)
     res.note(["simple", res.transitions, res.executions])
-    res.sample({"simple_interfaces": list(kinds), "key_subsets": {k: 2 ** len(v) for k, v in kfields.items()}, "chains": res.executions})
+    res.sample({"simple_interfaces": list(kinds) + ["dcn"], "key_subsets": {k: 2 ** len(v) for k, v in kfields.items()}, "chains": res.executions})
 
 
 _CACHE_DIR = None
